@@ -38,6 +38,7 @@ ASSUMPTIONS = ["class-name prefixes 'Async' and the a-prefixed method names are 
 REQUIRED = ["programs", "comparisons", "trace_events_compared", "line_sets_compared", "async_lines_executed"]
 
 TOOL = 4
+simnet.DETACH_ON_START_TLS = False  # the sync stream model would otherwise (rightly) log a different close sequence
 
 
 class LineSets:
